@@ -468,6 +468,21 @@ class DualExec:
         self.base: Dict[int, Optional[int]] = {}  # owner name of a view (None for owners)
         self.ver: Dict[int, int] = {}
         self.viewfn: Dict[int, Any] = {}  # for views: function mapping the owner's array to this view
+        self.sd: Dict[int, set] = {}  # owner -> set of (owner', version) it structurally depends on (non-constant paths)
+
+    def sd_full(self, name):
+        """structural dependencies of tensor `name`, including its own current version"""
+        if self.const.get(name, True):
+            return set()
+        o = self.owner(name)
+        return set(self.sd.get(o, ())) | {(o, self.ver.get(o, 0))}
+
+    def opdeps(self, *operands):
+        d = set()
+        for o in operands:
+            if o[0] == "t":
+                d |= self.sd_full(o[1])
+        return d
 
     def seed(self, name):
         """attach fresh seeds to every element of owner `name` (in place in its buffer)"""
@@ -490,7 +505,8 @@ class DualExec:
             a[i] = D(x)
         return a.reshape(o[1]), True
 
-    def new(self, name, arr, const, seed=True):
+    def new(self, name, arr, const, seed=True, deps=()):
+        self.sd[name] = set() if const else set(deps)
         arr = _obj(arr)
         if arr.base is not None or not arr.flags.owndata:
             arr = arr.copy()
@@ -521,11 +537,11 @@ class DualExec:
             self.new(st[1], a.reshape(st[2]), bool(st[4]))
         elif k == "bin":
             (a, ca), (b, cb) = self.operand(st[3]), self.operand(st[4])
-            self.new(st[1], BIN[st[2]](a, b), self.infer(st[5], [ca, cb]))
+            self.new(st[1], BIN[st[2]](a, b), self.infer(st[5], [ca, cb]), deps=self.opdeps(st[3], st[4]))
         elif k == "un":
             a, ca = self.operand(st[3])
             r = a * a if st[2] == "square" else UN[st[2]](a)
-            self.new(st[1], r, self.infer(st[4], [ca]))
+            self.new(st[1], r, self.infer(st[4], [ca]), deps=self.opdeps(st[3]))
         elif k == "sum":
             a, ca = self.operand(st[2])
             if a.size == 0:
@@ -535,7 +551,7 @@ class DualExec:
                     r[idx] = D(0)
             else:
                 r = np.sum(a, axis=st[3], keepdims=bool(st[4]))
-            self.new(st[1], r, self.infer(st[5], [ca]))
+            self.new(st[1], r, self.infer(st[5], [ca]), deps=self.opdeps(st[2]))
         elif k == "view":
             a, ca = self.operand(st[3])
             vf = st[2]
@@ -552,10 +568,10 @@ class DualExec:
                 self.const[st[1]] = c
                 self.base[st[1]] = self.owner(src)
             else:
-                self.new(st[1], r, c)
+                self.new(st[1], r, c, deps=self.opdeps(st[3]))
         elif k == "take":
             a, ca = self.operand(st[2])
-            self.new(st[1], a[np.array(st[3], dtype=st[4])], self.infer(st[5], [ca]))
+            self.new(st[1], a[np.array(st[3], dtype=st[4])], self.infer(st[5], [ca]), deps=self.opdeps(st[2]))
         elif k in ("set", "aug", "outb", "outu"):
             name = st[1]
             t = v[name]
@@ -581,6 +597,10 @@ class DualExec:
                     m = np.broadcast_to(np.array(w[1], dtype=bool).reshape(w[0]), t.shape)
                     t[m] = r[m]
             own = self.owner(name)
+            # the mutated family depends on its previous version and on the operands
+            ops_ = [x for x in st[2:] if isinstance(x, list) and len(x) == 2 and x[0] == "t"]
+            if not self.const[own]:
+                self.sd[own] = self.sd_full(own) | self.opdeps(*ops_)
             if self.const[own]:
                 # constants carry no partials
                 a = v[own]
@@ -615,7 +635,7 @@ class DualExec:
                 continue
             ver = self.ver.get(name)
             keys = [(name, ver, k) for k in range(a.size)]
-            if not any(kk in tot.g for kk in keys):
+            if (name, ver) not in self.sd_full(L):
                 out[name] = None
             else:
                 out[name] = np.array([float(tot.g.get(kk, 0)) for kk in keys]).reshape(a.shape)
@@ -690,6 +710,12 @@ class Gen:
         self.rng = rng
         self.prog = []
         self.shape: Dict[int, Tuple[int, ...]] = {}
+        # layout bookkeeping: NumPy's element-wise kernels allocate their result in 'K' order (following the
+        # operands' memory layout), which the Lean model does not reproduce (it allocates C order).  The only
+        # statement whose outcome depends on that is `reshape` (view or copy), so it is generated only on tensors
+        # whose exact strides the model knows: leaves, results computed from C-contiguous operands, views of those.
+        self.known: Dict[int, bool] = {}
+        self.contig: Dict[int, bool] = {}
         self.next = 0
         self.n_stmts, self.p_inplace, self.p_view, self.p_fail, self.p_const = n_stmts, p_inplace, p_view, p_fail, p_const
         self.inplace, self.final_back, self.multi_back, self.allow_empty = inplace, final_back, multi_back, allow_empty
@@ -727,6 +753,7 @@ class Gen:
         n = self.fresh()
         self.prog.append(["leaf", n, list(s), rand_data(rng, s), int(rng.random() < self.p_const)])
         self.shape[n] = tuple(s)
+        self.known[n] = self.contig[n] = True
 
     def add_stmt(self):
         rng = self.rng
@@ -775,13 +802,16 @@ class Gen:
             idx = [rng.randint(-sa[0], sa[0] - 1) for _ in range(rng.randint(1, 4))]
             self.prog.append(["take", n, ["t", a], idx, rng.choice(["int64", "int32", "int8", "uint8"]) if all(i >= 0 for i in idx) else rng.choice(["int64", "int32", "int16"]), self.c()])
             self.shape[n] = (len(idx),) + sa[1:]
+        st = self.prog[-1]
+        ok = all(self.contig.get(x[1], False) for x in st[1:] if isinstance(x, list) and len(x) == 2 and x[0] == "t")
+        self.known[n] = self.contig[n] = ok
 
     def add_view(self):
         rng = self.rng
         a = self.pick()
         sa = self.shape[a]
         n = self.fresh()
-        kinds = ["gi", "gi", "gi", "rs", "T", "ex"]
+        kinds = ["gi", "gi", "gi", "T", "ex"] + (["rs", "rs"] if self.known[a] else [])
         if len(sa) >= 2:
             kinds += ["tr", "tr"]
         if 1 in sa:
@@ -819,6 +849,8 @@ class Gen:
             cc = None
         self.prog.append(["view", n, vf, ["t", a], cc])
         self.shape[n] = tuple(s)
+        self.known[n] = self.known[a]
+        self.contig[n] = self.contig[a] and k in ("rs", "ex", "sq")
 
     def add_inplace(self):
         rng = self.rng
